@@ -20,7 +20,7 @@ checks with the checks in view:
   pinned test command on a scratch worktree carrying the change (`meta.json ->
   verified.existing_tests`: the set of stable-pass tests that no longer pass must be empty;
   where the full run (1.5-2.5 h each on the loaded machine) did not fit into the budget the
-  field says so and the author's own subset run is what stands).  Four rounds, 44 changes;
+  field says so and the author's own subset run is what stands; 24 of the 44 changes have the full-suite confirmation).  Four rounds, 44 changes;
   later rounds were told which ideas were already taken for the property.
 * **Reverted fixes**: every `fix:` commit of /repo reverse-applied on its own
   (`git revert --no-commit` output kept in `seeded/reverts/` where a plain reverse apply
